@@ -219,9 +219,12 @@ func runSimple1Bubble(sc scenario) result {
 			cancel()
 		}
 		synctest.Wait()
+		// Err() closed is the discipline's announcement that it has terminated: at this quiescent point nothing it started may be left
+		poll()
 		mu.Lock()
-		if stopSeen {
-			// a stop call has returned and everything has settled: whatever the library started and is still there, remains
+		if stopSeen || terminated {
+			// a stop call has returned (or termination was announced) and everything has settled: whatever the library started
+			// and is still there, remains
 			if l := libGoroutines(); l > leakedMax {
 				leakedMax = l
 			}
